@@ -291,6 +291,4 @@ def check_simple(case, mon, ctx):
         return
     mon.count('simple_extractor_pages')
     mon.count('simple_extractor_lines', sum(len(r.lines) for r in out.regions))
-    ids = [l.id for l in out.lines_iterator()]
-    if len(ids) != len(set(ids)):
-        mon.violation('line-ids-distinct', {'extractor': 'TextlineExtractorSimple', 'ids': ids})
+    check_page_invariants(out, mon, {'extractor': 'TextlineExtractorSimple', 'seed': case['seed']})
